@@ -17,7 +17,77 @@ func VerifC12Gen(r *vu.Rng, i int) []string {
 }
 
 // VerifC13Gen generates RFC 9218 histories only (many streams per class, priority updates).
-func VerifC13Gen(r *vu.Rng, i int) []string { return vfGen(r, "p9218") }
+func VerifC13Gen(r *vu.Rng, i int) []string {
+	if r.Chance(1, 5) {
+		return vfGenAlternation(r)
+	}
+	return vfGen(r, "p9218")
+}
+
+// vfGenAlternation: an incremental and a non-incremental class of the SAME urgency are kept sendable (several
+// streams each, plenty of small frames, wide windows) while control frames (ctl / rst) are pushed between the
+// stream pops in varying numbers, so control-frame Pops interleave with stream Pops; some runs add a more
+// urgent or less urgent bystander, close or re-prioritise a stream midway.
+func vfGenAlternation(r *vu.Rng) []string {
+	g := &vfGenState{r: r, kind: "p9218", nextID: 1}
+	g.add("reset p9218 %d 65535 65535", []int{1, 2, 16384}[r.Intn(3)])
+	u := r.Intn(8)
+	var ids []int
+	nInc, nNon := 1+r.Intn(3), 1+r.Intn(2)
+	for k := 0; k < nInc+nNon; k++ {
+		id := g.nextID
+		g.nextID += 2
+		inc := 0
+		if k < nInc {
+			inc = 1
+		}
+		if r.Chance(1, 4) {
+			// arrive via a buffered PRIORITY_UPDATE
+			g.add("adjust %d 0 0 15 %d %d", id, u, inc)
+			g.add("open %d 0 %d %d", id, r.Intn(8), r.Intn(2))
+		} else {
+			g.add("open %d 0 %d %d", id, u, inc)
+		}
+		ids = append(ids, id)
+	}
+	if r.Chance(1, 3) && u < 7 {
+		id := g.nextID
+		g.nextID += 2
+		g.add("open %d 0 %d %d", id, u+1, r.Intn(2))
+		ids = append(ids, id)
+	}
+	for _, id := range ids {
+		for k := 2 + r.Intn(4); k > 0; k-- {
+			g.doPushStream(id)
+		}
+	}
+	rounds := 6 + r.Intn(14)
+	for k := 0; k < rounds; k++ {
+		// 0, 1, 2 or 3 control frames before the next stream pop (one-for-one interleaving is the common case)
+		nc := []int{0, 1, 1, 1, 2, 3}[r.Intn(6)]
+		for j := 0; j < nc; j++ {
+			g.tag++
+			if r.Bool() {
+				g.add("ctl %d", g.tag)
+			} else {
+				g.add("rst %d %d", ids[r.Intn(len(ids))], g.tag)
+			}
+		}
+		for j := 0; j < nc+1; j++ {
+			g.add("pop")
+		}
+		switch r.Intn(10) {
+		case 0:
+			g.doPushStream(ids[r.Intn(len(ids))])
+		case 1:
+			g.add("adjust %d 0 0 15 %d %d", ids[r.Intn(len(ids))], u, r.Intn(2))
+		case 2:
+			g.add("dump")
+		}
+	}
+	g.add("dump")
+	return g.ops
+}
 
 type vfGenState struct {
 	r        *vu.Rng
@@ -168,12 +238,7 @@ func vfGen(r *vu.Rng, kind string) []string {
 		case x < 71:
 			g.add("dump")
 		case x < 72 && kind == "p9218":
-			pool := []string{"u=3, i", "u=0", "u=7, i=?0", "u=8", "u=-1", "i, u=5", "u=2;x=1, i=?1", "", "u=3,", "U=1", "u=1.5", "i=1", "u=\"3\"", "a=1, u=6, b, i"}
-			str := pool[r.Intn(len(pool))]
-			if r.Chance(1, 5) {
-				str = string(r.BytesFrom("ui=?01, ;7", r.Intn(12)))
-			}
-			g.add("pparse %s %d", vu.Hex([]byte(str)), r.Intn(2))
+			g.add("pparse %s %d", vu.Hex([]byte(vfPrioString(r))), r.Intn(2))
 		case x < 73 && g.violate:
 			// contract violations (the oracle switches itself off; the model must still agree)
 			switch r.Intn(4) {
@@ -209,4 +274,55 @@ func vfGen(r *vu.Rng, kind string) []string {
 	}
 	g.add("dump")
 	return g.ops
+}
+
+// vfPrioString generates `priority` field values: well-formed dictionaries with u/i members in and out of
+// range (negative, > 7, huge, decimals, strings, tokens), i as boolean / non-boolean / bare key, duplicated
+// keys (last one wins), parameters, other members, odd whitespace, and malformed tails.
+func vfPrioString(r *vu.Rng) string {
+	uvals := []string{"0", "1", "3", "7", "8", "9", "-1", "-3", "-7", "-8", "-249", "-255", "-256", "255", "256", "263",
+		"999999999999999", "-999999999999999", "1.0", "3.5", "-0", "-0.0", "\"3\"", "tok", "?1", "?0", ":AA==:", "@3", "(1 2)", "07", "+1", ""}
+	ivals := []string{"", "=?1", "=?0", "=1", "=0", "=tok", "=\"x\"", "=?2", "=?", "=1.5", "=(?1)", "=?1;p=1"}
+	if r.Chance(1, 8) {
+		return string(r.BytesFrom("ui=?01-., ;789\"", r.Intn(14)))
+	}
+	var parts []string
+	n := 1 + r.Intn(4)
+	for k := 0; k < n; k++ {
+		switch r.Intn(6) {
+		case 0, 1, 2:
+			key := "u"
+			if r.Chance(1, 12) {
+				key = []string{"U", "uu", "u2", "*u"}[r.Intn(4)]
+			}
+			m := key + "=" + uvals[r.Intn(len(uvals))]
+			if r.Chance(1, 6) {
+				m += ";x=1"
+			}
+			parts = append(parts, m)
+		case 3, 4:
+			parts = append(parts, "i"+ivals[r.Intn(len(ivals))])
+		default:
+			parts = append(parts, []string{"a=1", "b", "foo=(1 2);q", "x=\"y\""}[r.Intn(4)])
+		}
+	}
+	sep := []string{", ", ",", " , ", ",\t", ", "}[r.Intn(5)]
+	out := ""
+	for k, p := range parts {
+		if k > 0 {
+			out += sep
+		}
+		out += p
+	}
+	switch r.Intn(12) {
+	case 0:
+		out += ","
+	case 1:
+		out += " "
+	case 2:
+		out = " " + out
+	case 3:
+		out += ";"
+	}
+	return out
 }
